@@ -146,7 +146,12 @@ impl Schedule {
 
     /// Computes the leader for the given view.
     pub fn view_leader(&self, view_number: ViewNumber) -> validator::PublicKey {
-        let turn = view_number.0 / self.leader_selection.frequency;
+        // A frequency of 0 means that the leader never rotates.
+        let turn = if self.leader_selection.frequency == 0 {
+            0
+        } else {
+            view_number.0 / self.leader_selection.frequency
+        };
 
         match &self.leader_selection.mode {
             LeaderSelectionMode::RoundRobin => {
